@@ -169,6 +169,22 @@ def run(ctx):
         if not corr and m[:2] != got[:2]:
             ctx.violation('correspondence-broken', 'model accepts the broken document (%s)' % why, {'document': text, 'component': 'zparse'})
             corr = True
+    # a broken grid anywhere in a document of several grids rejects the document, whichever way it is asked for
+    # (single=True, the default, hands back the first grid of a document that was parsed as a whole)
+    good = 'ver:"3.0"\nq\n1\n'
+    multi = [(good + '\n' + b, why) for b, why in BROKEN if b.strip()] + [(good + '\n' + good + '\n' + b, why) for b, why in BROKEN[:6] if b.strip()]
+    mdocs = [d for d, _ in multi]
+    for single in (True, False):
+        for (text, why), got in zip(multi, zincsim.impl_parse_many(mdocs, single=single)):
+            ctx.coverage['evaluations'] += 1
+            ctx.count('broken-later-grid:single=%s' % single)
+            if got[0] == 'ok':
+                ctx.violation('impl-counterexample', 'a document whose second or third grid is structurally broken (%s) was accepted with single=%s and parsed to %r'
+                              % (why, single, repr(got[1])[:200]), {'document': text, 'why': why, 'single': single})
+                return
+            if got[1] != 'ZincParseException':
+                ctx.violation('impl-counterexample', 'a document with a broken later grid (%s) raised %s' % (why, got[1]), {'document': text, 'single': single})
+                return
     # scalars: only ValueError-family exceptions
     sc = list(SCALARS)
     for s in ('"abc"', '12.5kg', '@a "b"', '[1,2]', '2020-06-01T12:00:00Z UTC', 'C(1,2)'):
